@@ -16,6 +16,13 @@ def fixed_item_size(param):
         return param.item_size if not isinstance(param, OpaqueParam) else 1
     if isinstance(param, VectorParamEnumCodeNumeric):
         return param.fallback_class.get_byte_num()
+    if isinstance(param, VectorParamParsable) and isinstance(param.item_class, type):
+        from contracts.common_parse import coded_kind
+        from cryptoparser.common.utils import get_leaf_classes
+        for classes in ([param.item_class], get_leaf_classes(param.item_class)):
+            sp = coded_kind(list(classes), param.fallback_class)
+            if sp is not None:
+                return sp.width
     return None
 
 
